@@ -240,7 +240,7 @@ def run(chk, replay=None):
     Bld = c06.builders()
     for fmt in sorted(Bld):
         dec = datafmt.decoder(fmt)
-        for _ in range(4 if chk.quick else 30):
+        for _ in range(4 if chk.quick else 12):
             b0 = datafmt.GEN[fmt](drng, 1) if fmt.startswith("ModeSense") else datafmt.GEN[fmt](drng)
             try:
                 d = dec(bytearray(b0))
